@@ -1,5 +1,6 @@
 pub mod forward;
 pub mod h1;
+pub mod metrics;
 pub mod relay;
 pub mod requests;
 pub mod services;
@@ -11,8 +12,40 @@ static AUTH: requests::Requests = requests::Requests { focus: requests::Focus::A
 static RESPONSES: requests::Requests = requests::Requests { focus: requests::Focus::Responses };
 static EGRESS: requests::Requests = requests::Requests { focus: requests::Focus::Egress };
 
+/// The same scenario with every `log::Record` captured at trace level and searched for the
+/// canaries the scenario planted (C20)
+pub struct WithLogs {
+    pub inner: &'static dyn Scenario,
+    pub name: &'static str,
+}
+
+impl Scenario for WithLogs {
+    fn name(&self) -> &'static str {
+        self.name
+    }
+    fn generate(&self, seed: u64, index: u64, tier: crate::scenario::Tier) -> serde_json::Value {
+        self.inner.generate(seed ^ 0x5ec, index, tier)
+    }
+    fn execute(&self, plan: &serde_json::Value) -> crate::sim::Outcome {
+        crate::sim::set_logging(true, false);
+        let o = self.inner.execute(plan);
+        crate::sim::set_logging(false, false);
+        o
+    }
+    fn budget(&self, tier: crate::scenario::Tier) -> u64 {
+        (self.inner.budget(tier) / 8).max(500)
+    }
+}
+
+static L_AUTH: WithLogs = WithLogs { inner: &AUTH, name: "secrets-auth" };
+static L_RESPONSES: WithLogs = WithLogs { inner: &RESPONSES, name: "secrets-responses" };
+static L_FORWARD: WithLogs = WithLogs { inner: &forward::Forward, name: "secrets-forward" };
+static L_SERVICES: WithLogs = WithLogs { inner: &services::Services, name: "secrets-services" };
+static L_RELAY: WithLogs = WithLogs { inner: &relay::Relay, name: "secrets-relay" };
+static L_H1: WithLogs = WithLogs { inner: &h1::H1, name: "secrets-h1" };
+
 pub fn all() -> Vec<&'static dyn Scenario> {
-    vec![&relay::Relay, &AUTH, &RESPONSES, &EGRESS, &h1::H1, &timeouts::Timeouts, &forward::Forward, &services::Services]
+    vec![&relay::Relay, &AUTH, &RESPONSES, &EGRESS, &h1::H1, &timeouts::Timeouts, &forward::Forward, &services::Services, &metrics::Metrics, &L_AUTH, &L_RESPONSES, &L_FORWARD, &L_SERVICES, &L_RELAY, &L_H1]
 }
 
 pub fn by_name(name: &str) -> Option<&'static dyn Scenario> {
